@@ -195,7 +195,9 @@ def run(chk: lib.Check):
                 picks.append((e.get("id"), (d + "/" if d else "") + f"F{i} {e.get(graph.XSI_TYPE).split(':')[-1]}.capellafragment"))
             with lib.scratch("c06-") as tmp:
                 shutil.copytree(src, tmp / "m", ignore=shutil.ignore_patterns("*.license"))
-                made = fragmenter.fragment_model(tmp / "m", capella, aird, picks)
+                aird_style = "chain" if li % 2 else "direct"
+                made = fragmenter.fragment_model(tmp / "m", capella, aird, picks, aird_style=aird_style)
+                stats[f"aird-style:{aird_style}"] += 1
                 if not made:
                     continue
                 stats["layouts"] += 1
@@ -295,6 +297,37 @@ def run(chk: lib.Check):
                     leaf_id = next((d.get("id") for d in inner_el.iterdescendants() if isinstance(d.tag, str) and d.get("id") and len(d) == 0
                                     and d.get(graph.XSI_TYPE) and d.get(graph.XSI_TYPE) not in link_types), None)
                     new_uuid = str(__import__("uuid").UUID(int=rng.getrandbits(128), version=4))
+                    # a move ACROSS the fragment boundary: a contained child of the innermost fragment's root goes to another object of the
+                    # root's class that lives outside the fragment (same relation)
+                    inner_anc = {id(a) for a in inner_el.iterancestors()}
+                    inner_desc = {id(d) for d in inner_el.iter()}
+                    move_id = dest_id = None
+                    by_xt = collections.defaultdict(list)
+                    for e in elems:
+                        if e.get("id") and e.get(graph.XSI_TYPE) and id(e) not in inner_anc and id(e) not in inner_desc:
+                            by_xt[e.get(graph.XSI_TYPE)].append(e)
+                    for x_el in inner_el.iterdescendants():
+                        if not (isinstance(x_el.tag, str) and x_el.get("id") and x_el.get(graph.XSI_TYPE)) or x_el.get(graph.XSI_TYPE) in link_types \
+                                or x_el.get("id") == leaf_id or (leaf_id and any(d.get("id") == leaf_id for d in x_el.iter())):
+                            continue
+                        par_el = x_el.getparent()
+                        dests = by_xt.get(par_el.get(graph.XSI_TYPE) or "", [])
+                        if par_el.get("id") and dests:
+                            move_id, dest_id = x_el.get("id"), dests[li % len(dests)].get("id")
+                            break
+                    # ... or INTO the fragment: an outside object of the same type as some contained child inside joins that child's list
+                    in_moves = []
+                    if not (move_id and dest_id):
+                        for c_el in inner_el.iterdescendants():
+                            if not (isinstance(c_el.tag, str) and c_el.get("id") and c_el.get(graph.XSI_TYPE)) or c_el.get(graph.XSI_TYPE) in link_types \
+                                    or c_el.get("id") == leaf_id:
+                                continue
+                            h_el = c_el.getparent()
+                            outs = [y for y in by_xt.get(c_el.get(graph.XSI_TYPE), []) if y.getparent() is not None and y.getparent().get("id")]
+                            if h_el.get("id") and outs:
+                                in_moves.append((c_el.get("id"), h_el.get("id"), outs[li % len(outs)].get("id")))
+                            if len(in_moves) >= 12:
+                                break
                     mono2 = corpus.load(spec0)
 
                     def structural_edits(m):
@@ -312,6 +345,30 @@ def run(chk: lib.Check):
                                     res.append("deleted")
                             except Exception as ex:  # noqa: BLE001
                                 res.append("delete:" + type(ex).__name__)
+                        if move_id and dest_id:
+                            try:
+                                x_ = m.by_uuid(move_id)
+                                cont = hr_.container_of(x_)
+                                if cont is None:
+                                    res.append("move:no-container")
+                                else:
+                                    getattr(m.by_uuid(dest_id), cont[1]).append(x_)
+                                    res.append(f"moved:{cont[1]}")
+                            except Exception as ex:  # noqa: BLE001
+                                res.append("move:" + type(ex).__name__)
+                        for k_, in_move in enumerate(in_moves):
+                            try:
+                                cont = hr_.container_of(m.by_uuid(in_move[0]))
+                            except Exception:  # noqa: BLE001
+                                cont = None
+                            if cont is None:
+                                continue
+                            try:
+                                getattr(m.by_uuid(in_move[1]), cont[1]).append(m.by_uuid(in_move[2]))
+                                res.append(f"moved-in#{k_}:{cont[1]}")
+                            except Exception as ex:  # noqa: BLE001
+                                res.append(f"move-in#{k_}:" + type(ex).__name__)
+                            break
                         try:
                             host_ = m.by_uuid(inner_el.get("id"))
                             rels_ = sorted(hr_.rels(host_, ("direct",)), key=lambda na: na[0])
@@ -332,12 +389,13 @@ def run(chk: lib.Check):
 
                     rm_, rf_ = structural_edits(mono2), structural_edits(frag)
                     stats[f"structural-edits:{'+'.join(x.split(':')[0] for x in rf_)}"] += 1
+                    stats["structural-edit-outcome:" + " ".join(rf_)] += 1
                     if rm_ != rf_:
                         chk.violation("edit-outcome-differs", f"the same edits give {rm_} on the single-file model and {rf_} on the fragmented layout",
                                       {"model": spec0["name"], "picks": picks, "leaf": leaf_id, "new_uuid": new_uuid, "mono": rm_, "fragmented": rf_})
                     else:
-                        s2 = [u_ for u_ in sample if u_ != leaf_id] + [new_uuid]
-                        r2 = [u_ for u_ in rel_sample if u_ != leaf_id] + [new_uuid]
+                        s2 = [u_ for u_ in sample if u_ != leaf_id] + [new_uuid] + [u_ for u_ in (move_id, dest_id, *(x_ for t_ in in_moves[:3] for x_ in t_)) if u_]
+                        r2 = [u_ for u_ in rel_sample if u_ != leaf_id] + [new_uuid] + [u_ for u_ in (move_id, dest_id, *(x_ for t_ in in_moves[:3] for x_ in t_)) if u_]
                         dm2, dfe = digest(mono2, s2, r2, anchors, types), digest(frag, s2, r2, anchors, types)
                         for key in dm2:
                             if dm2[key] != dfe.get(key):
